@@ -333,17 +333,24 @@ pub fn run(rep: &mut Report, rng: &mut Rng, thorough: bool) {
                 if !m.is_empty() && r.chance(3, 4) {
                     m[0] = 0;
                 }
+                // a caller-supplied preset dictionary, also longer than the dictionary (only its tail can be addressed)
+                let preset: Option<Vec<u8>> = if (dict == 4096 || dict == 4095 || dict == 65536) && r.chance(1, 2) {
+                    let d = dict as usize;
+                    let plen = *r.pick(&[1usize, 100, d - 1, d, d + 1, 2 * d + 7, 3 * d]);
+                    Some((0..plen).map(|k| ((k * 7 + k / 253) % 251) as u8).collect())
+                } else { None };
+                let size = if preset.is_some() && r.chance(1, 2) { u64::MAX } else { size };
                 let v = run_case(|| guard(|| {
-                    let mut rd = LZMAReader::new_with_props(m.as_slice(), size, props, dict, None)?;
+                    let mut rd = LZMAReader::new_with_props(m.as_slice(), size, props, dict, preset.as_deref())?;
                     read_all_sched(&mut rd, &[4096], cap)
                 }));
-                let d = json!({"decoder": "lzma", "props": props, "dict": dict, "size": size, "input_hex": hex(&m), "case": i});
+                let d = json!({"decoder": "lzma", "props": props, "dict": dict, "size": size, "input_hex": hex(&m), "preset_len": preset.as_ref().map(|p| p.len()), "case": i});
                 judge(rep, "lzma", &v, (dict as usize).max(4096).min(if size <= u64::MAX / 2 { (size as usize).max(4096) } else { usize::MAX }), m.len(), d.clone());
                 if dict <= (1 << 26) && props <= 224 {
                     let o = guard(|| {
                         let mut src = m.as_slice();
                         let out = {
-                            let mut rd = LZMAReader::new_with_props(&mut src, size, props, dict, None)?;
+                            let mut rd = LZMAReader::new_with_props(&mut src, size, props, dict, preset.as_deref())?;
                             read_all_sched(&mut rd, &[4096], cap)?
                         };
                         Ok((out, m.len() - src.len()))
@@ -354,7 +361,7 @@ pub fn run(rep: &mut Report, rng: &mut Rng, thorough: bool) {
                     if size <= cap as u64 || size == u64::MAX {
                         // (a declared size far beyond the cap would make the MODEL loop on zeros past the end of the input: its fuel is the declared size)
                         rep.model(
-                            format!("lzma.dec fmt=raw lc={lc} lp={lp} pb={pb} dict={dict} size={} preset=- in={} cap={cap} reenc=0", if size == u64::MAX { "-".to_string() } else { size.to_string() }, hex(&m)),
+                            format!("lzma.dec fmt=raw lc={lc} lp={lp} pb={pb} dict={dict} size={} preset={} in={} cap={cap} reenc=0", if size == u64::MAX { "-".to_string() } else { size.to_string() }, preset.as_ref().map(|p| hex(p)).unwrap_or("-".into()), hex(&m)),
                             match &o { Outcome::Ok((out, used)) => format!("ok {} {} {} -", out.len(), fnv(out), used), other => canon_simple(other) },
                         );
                     }
@@ -365,6 +372,11 @@ pub fn run(rep: &mut Report, rng: &mut Rng, thorough: bool) {
                 // raw LZMA2: random chunk soup or mutated valid stream
                 let dict = *r.pick(&[4096u32, 65536, 1 << 20, 0xFFFF_FFFF, 0, 1, 4095, 4097]);
                 let dict = if dict == 0xFFFF_FFFF && !r.chance(1, 30) { 4096 } else { dict };
+                let preset: Option<Vec<u8>> = if (dict == 4096 || dict == 4097 || dict == 65536) && r.chance(1, 2) {
+                    let d = dict as usize;
+                    let plen = *r.pick(&[1usize, 100, d - 1, d, d + 1, 2 * d + 7, 3 * d]);
+                    Some((0..plen).map(|k| ((k * 7 + k / 253) % 251) as u8).collect())
+                } else { None };
                 let m: Vec<u8> = if which == 5 {
                     let mut v = vec![];
                     for _ in 0..r.range(1, 5) {
@@ -403,10 +415,16 @@ pub fn run(rep: &mut Report, rng: &mut Rng, thorough: bool) {
                     v
                 } else {
                     let data = gen_data(&mut r, "text", 400);
-                    let o = gen_lzopts(&mut r, true, 1 << 16, false);
+                    let mut o = gen_lzopts(&mut r, true, 1 << 16, false);
+                    if let Some(p) = &preset {
+                        // a stream that really starts inside the preset dictionary (first chunk without dictionary reset)
+                        o.preset = Some(p.clone());
+                        o.dict = dict.max(4096);
+                    }
+                    let data = if preset.is_some() { let mut d2 = preset.as_ref().unwrap()[..preset.as_ref().unwrap().len().min(150)].to_vec(); d2.extend_from_slice(&data); d2 } else { data };
                     match lzma2_compress(&data, &o, None, &[data.len()], 0) {
                         Outcome::Ok(mut c) => {
-                            for _ in 0..r.range(1, 3) {
+                            for _ in 0..r.range(if preset.is_some() { 0 } else { 1 }, 3) {
                                 let p = r.below(c.len() as u64) as usize;
                                 c[p] = r.next() as u8;
                             }
@@ -415,12 +433,12 @@ pub fn run(rep: &mut Report, rng: &mut Rng, thorough: bool) {
                         _ => vec![0],
                     }
                 };
-                let v = run_case(|| lzma2_decompress(&m, dict, None, &[4096], cap));
-                let d = json!({"decoder": "lzma2", "dict": dict, "input_hex": if m.len() <= 600 { hex(&m) } else { format!("{}..(len {}, fnv {})", hex(&m[..16.min(m.len())]), m.len(), fnv(&m)) }, "case": i});
+                let v = run_case(|| lzma2_decompress(&m, dict, preset.as_deref(), &[4096], cap));
+                let d = json!({"decoder": "lzma2", "dict": dict, "preset_len": preset.as_ref().map(|p| p.len()), "input_hex": if m.len() <= 600 { hex(&m) } else { format!("{}..(len {}, fnv {})", hex(&m[..16.min(m.len())]), m.len(), fnv(&m)) }, "case": i});
                 judge(rep, "lzma2", &v, dict as usize, m.len(), d.clone());
                 if dict != 0xFFFF_FFFF && m.len() <= 70000 {
-                    let o = lzma2_decompress(&m, dict, None, &[4096], cap);
-                    rep.model(format!("lzma2.dec dict={dict} preset=- in={} cap={cap} reenc=0", hex(&m)), match &o { Outcome::Ok((out, used)) => format!("ok {} {} {} -", out.len(), fnv(out), used), other => canon_simple(other) });
+                    let o = lzma2_decompress(&m, dict, preset.as_deref(), &[4096], cap);
+                    rep.model(format!("lzma2.dec dict={dict} preset={} in={} cap={cap} reenc=0", preset.as_ref().map(|p| hex(p)).unwrap_or("-".into()), hex(&m)), match &o { Outcome::Ok((out, used)) => format!("ok {} {} {} -", out.len(), fnv(out), used), other => canon_simple(other) });
                 }
                 // the MT reader on the same bytes
                 let m2 = m.clone();
